@@ -11,7 +11,7 @@ pub mod tests;
 // ================================================================================================
 
 /// The number of unique transition constraints in stack manipulation operations.
-pub const NUM_CONSTRAINTS: usize = 13;
+pub const NUM_CONSTRAINTS: usize = 14;
 
 // The co-efficient of the most significant 16-bit limb in the helper register during aggregation.
 pub const TWO_48: Felt = Felt::new(2u64.pow(48));
@@ -38,6 +38,7 @@ pub const CONSTRAINT_DEGREES: [usize; NUM_CONSTRAINTS] = [
     8, // constraint for U32MUL operation
     8, // constraint for U32MADD operation
     8, 7, 7, // constraint for U32DIV operation
+    7, // constraint for the unused upper limb of U32ADD and U32ADD3 operations
 ];
 
 // U32 OPERATIONS TRANSITION CONSTRAINTS
@@ -91,6 +92,12 @@ pub fn enforce_constraints<E: FieldElement<BaseField = Felt>>(
 
     // Enforce constaints of the U32DIV operations.
     index += enforce_u32div_constraints(frame, &mut result[index..], op_flag.u32div(), &limbs);
+
+    index += enforce_u32add_upper_limb_constraint(
+        frame,
+        &mut result[index..],
+        op_flag.u32add() + op_flag.u32add3(),
+    );
 
     index
 }
@@ -152,6 +159,21 @@ pub fn enforce_u32add3_constraints<E: FieldElement<BaseField = Felt>>(
     // Enforces the aggregation of the least three significant limbs from the helper registers forms
     // the combined sum of a, b and c.
     result[0] = op_flag * are_equal(a + b + c, limbs.v48());
+
+    1
+}
+
+/// Enforces that the fourth limb is not used by the U32ADD and U32ADD3 operations. The result of
+/// these operations fits into 3 16-bit limbs, and the carry (the top stack element in the next
+/// frame) must be equal to the third limb. As the upper 32-bits of the result are tied to the
+/// aggregation of the third and the fourth limbs, the following constraint is enforced:
+/// - The fourth limb is ZERO. h3 = 0.
+pub fn enforce_u32add_upper_limb_constraint<E: FieldElement<BaseField = Felt>>(
+    frame: &EvaluationFrame<E>,
+    result: &mut [E],
+    op_flag: E,
+) -> usize {
+    result[0] = op_flag * frame.user_op_helper(3);
 
     1
 }
